@@ -127,14 +127,14 @@ search_harness!(c17_quiescence_generator_choice, 4, {
 search_harness!(c09_repetition_in_search, 4, {
     setup_game(2, 2);
     let mut s = Searcher::new();
-    // game history: three earlier positions, each equal to one of the tree's nodes or foreign (a fixed
+    // game history: two earlier positions (with the root pushed by the search: three entries, the unwinding bound of is_repetition), each equal to one of the tree's nodes or foreign (a fixed
     // number of pushes: a symbolic number of Vec pushes does not get through CBMC; foreign entries are fillers)
     let mut occ = [0u8; 7];
     macro_rules! hist { ($i:expr) => { { let n = sym::u8(); sym::assume(n <= 7);
         let h = if n < 7 { g().hash[n as usize] } else { let x = sym::u64(); sym::assume(x & 63 == 63); x };
         crate::search::vh::rep_mut(&mut s).push(h); if n < 7 { occ[n as usize] += 1; } } }; }
-    hist!(0); hist!(1); hist!(2);
-    let k = 3u8;
+    hist!(0); hist!(1);
+    let k = 2u8;
     let root = Board::root();
     let (score, mv) = s.find_best_move(&root, 1, None);
     // reference: children that already occurred twice are draws; others have their quiescence value
